@@ -49,6 +49,9 @@ func (this Base256Encoder) encode(context *EncoderContext) error {
 			return gozxing.NewWriterException(
 				"IllegalStateException: Message length not in valid ranges: %v", dataCount)
 		}
+	} else {
+		// the run fills the symbol exactly: a single length byte 0 ("until the end of the symbol")
+		buffer = buffer[1:]
 	}
 	for i, c := 0, len(buffer); i < c; i++ {
 		context.WriteCodeword(base256Randomize255State(
